@@ -253,6 +253,19 @@ func makeErr(f model.Fault, k model.CallKey) error {
 	case "gerror":
 		return &ggql.Error{Base: fmt.Errorf("%w (ggql.Error) at node %d field %s", ErrInjected, k.Node, k.Field),
 			Extensions: map[string]interface{}{"code": "INJECTED"}}
+	case "foreign":
+		// an error produced by ggql's own parser for ANOTHER text (many lines): its line/column mean nothing in the request
+		_, perr := ggql.ParseValueString("{\n\n\n\n\n\n  a: [1,\n\n\n   }")
+		if perr == nil {
+			perr = fmt.Errorf("%w: foreign text unexpectedly parsed", ErrInjected)
+		}
+		switch f.N {
+		case 1:
+			return fmt.Errorf("%w while reading a nested document: %w", ErrInjected, perr)
+		case 2:
+			return ggql.Errors{perr}
+		}
+		return perr
 	case "sentinel":
 		// an application-owned error VALUE built once with the public ErrResolve and returned by every failing site,
 		// in every request: whatever ggql does with it must not accumulate on the instance
